@@ -543,6 +543,11 @@ func runC06(c *chk.Ctx) {
 	c.Merge(r2, "pairs")
 	r3 := pool.Run("c06bytes", p)
 	c.Merge(r3, "byte_slice_builds")
+	// a project on disk that is edited between the builds of one process
+	hp := c06HistParams{Depth: chk.Pick(c, 4, 5)}
+	r5 := c.Pool.Run("c06hist", hp)
+	c.Merge(r5, "histories")
+	c.Cov["disk_history_params"] = hp
 	// goroutines started by the library itself, under the cooperative scheduler
 	if vexe, _, info, err := overlay.BuildVsync(); err != nil {
 		fmt.Fprintln(os.Stderr, err)
@@ -576,5 +581,5 @@ func runC06(c *chk.Ctx) {
 	if cnt["projects_capped"] > 0 {
 		c.Incomplete = append(c.Incomplete, fmt.Sprintf("%d project(s) reached the per-project execution cap %d", cnt["projects_capped"], p.MaxExec))
 	}
-	c.Cov["rule"] = "every `for range <map>` of jsight-api-core and jsight-schema-core is rewritten (type-directed, by a build overlay generated from the current tree) to ask the explorer for its order; for every project (hand-written competing-candidate projects, every corpus file, every generated model within the budget) all executions with at most `bound` non-canonical orders are run (all permutations for maps of <= 4 keys, rotations and reversal beyond) and must yield the identical catalog+OpenAPI bytes or the identical error tuple; each diverging execution is replayed twice. In addition: each project twice in one process, once in a second process, every ordered pair of the hand-written set in one process, and each hand-written project (LF, CRLF, CR) twice from one caller-owned byte slice, which must stay unchanged. Goroutines the library starts itself (go statements, channel operations, select, sync and sync/atomic are rewritten to a cooperative scheduler by a second overlay) are explored the same way: every schedule within bound+1 deviations must give the canonical observation and must not deadlock."
+	c.Cov["rule"] = "every `for range <map>` of jsight-api-core and jsight-schema-core is rewritten (type-directed, by a build overlay generated from the current tree) to ask the explorer for its order; for every project (hand-written competing-candidate projects, every corpus file, every generated model within the budget) all executions with at most `bound` non-canonical orders are run (all permutations for maps of <= 4 keys, rotations and reversal beyond) and must yield the identical catalog+OpenAPI bytes or the identical error tuple; each diverging execution is replayed twice. In addition: each project twice in one process, once in a second process, every ordered pair of the hand-written set in one process, and each hand-written project (LF, CRLF, CR) twice from one caller-owned byte slice, which must stay unchanged. Disk histories: over a four-file project (root, two INCLUDEs, one nested; 2-4 same-length variants per file, among them a dangling reference and a lexical error) every sequence of at most `depth` operations from {build, rewrite file f with variant v in place with the modification time pinned to a constant | left to the file system} is executed in a directory of its own, and every build in it must equal the build of the same contents in a directory no build has seen. Goroutines the library starts itself (go statements, channel operations, select, sync and sync/atomic are rewritten to a cooperative scheduler by a second overlay) are explored the same way: every schedule within bound+1 deviations must give the canonical observation and must not deadlock."
 }
